@@ -274,7 +274,7 @@ pub fn hx_plan(prop: &'static str, tier: &str) -> Vec<HxCfg> {
                     wall(l(depth(all_ops(HxCfg::new(prop, "3 ids, 1 label (A = Sodg<1>, 3 slots)", 1, 3, &[0, 1, 2], &[0], &[0])), 7), &all, 2), 1500),
                     wall(l(depth(all_ops(HxCfg::new(prop, "3 ids, 2 labels (A = Sodg<2>, 3 slots)", 2, 3, &[0, 1, 2], &[0, 1], &[0, 1])), 6), &all.iter().copied().filter(|(n, _)| *n >= 2).collect::<Vec<_>>(), 2), 1500),
                     wall(l(depth(a4(prop, "4 ids (A = Sodg<2>, 4 slots)"), 7), &[(16, 256), (2, 5), (9, 8), (3, 64), (16, 4)], 1), 1200),
-                    wall(l(all_ops(a3(prop, "3 ids, all ops, to closure")), &[(16, 256), (1, 3)], 1), 1200),
+                    wall(l(all_ops(a3(prop, "3 ids, all ops, to closure")), &[(16, 256), (2, 4)], 1), 1200),
                 ]
             }
         }
